@@ -1,8 +1,9 @@
 """Rules of the inductive group: C01 (stack discipline), C02 (memo), C03 (operand kinds),
 C17 (simulation fidelity).  See DESIGN.md section 4."""
+import re
 import time
 
-from values import Agg, Box_, PathEnd, Ref, Sym, Unanalysable, bounds, is_sym
+from values import Agg, Box_, INT_TYPES, PathEnd, Ref, Sym, Unanalysable, bounds, is_sym
 import absgen as G
 import harness as H
 import models as M
@@ -243,6 +244,89 @@ def default_flags_premise(env, res, flags, why):
         v = d.get(fl, "missing")
         if v is not False:
             res.add("premise", "default-config/%s" % fl, "Generator::new() leaves %s = %r: %s" % (fl, v, why), loc)
+    builder_flags_premise(env, res, flags)
+
+
+FLAG_FIELDS = ("unsafe_mutations", "allow_ext_opcodes", "allow_buffer_opcodes")
+
+
+def builder_flag_findings(env):
+    """The three mode flags are what the property statements mean by "without unsafe mutations" / "unless enabled": every
+    configuration method of Generator (`with_*`, `set_*`, `add_*`, `clear_*`) is interpreted on an abstract generator with
+    abstract arguments; afterwards each flag is either untouched or is exactly a boolean ARGUMENT of that call.  (A builder
+    that derives a flag from other state - e.g. from the registered mutators - switches a mode on nobody asked for.)"""
+    def compute():
+        from interp import Interp, explore
+        import harness as H
+        import absgen as G
+        prog, ctx = env.prog, env.ctx
+        out = []
+        mf = H.models_factory(prog, ctx, None)
+        names = ctx.fields(ctx.gen_adt)
+        keys = sorted(k for k in prog.bodies if re.match(r"generator::Generator::(with|set|add|clear|enable|disable)_\w+$", k))
+        n = 0
+        for k in keys:
+            body = prog.bodies[k]
+            tys = [str(body["locals"][i].get("ty", "")) for i in range(1, body["arg_count"] + 1)]
+            if not tys or "Generator" not in tys[0]:
+                continue
+
+            def one(run, k=k, tys=tys):
+                I = Interp(prog, run, mf())
+                h = ctx.make_generator(depth_bound=2)
+                args, bools = [], []
+                for i, ty in enumerate(tys):
+                    if i == 0:
+                        args.append(h.ref() if ty.startswith("&") else h.g)
+                    elif ty == "bool":
+                        b = G.LazyBool("arg%d" % i)
+                        bools.append(b)
+                        args.append(b)
+                    elif ty in INT_TYPES or ty == "f64":
+                        args.append(Sym("arg%d" % i, (), ty))
+                    elif "dyn mutators::Mutator" in ty and ty.startswith("std::vec::Vec<"):
+                        args.append(G.AbsMutators(ctx))
+                    elif "dyn mutators::Mutator" in ty:
+                        args.append(M.BoxVal(G.DynMutator(0)))
+                    elif ty.startswith("std::option::Option<") and ty[20:-1] in INT_TYPES:
+                        args.append(G.LazyOption("arg%d" % i, ty[20:-1]))
+                    else:
+                        raise Unanalysable("builder %s takes %s" % (k, ty))
+                one.last = (h, bools, None)
+                r = I.call(k, args)
+                return (h, bools, r)
+            try:
+                for run, rr, pe in explore(one, max_runs=200):
+                    n += 1
+                    if pe is not None:
+                        continue
+                    h, bools, r = rr
+                    g = r if (isinstance(r, Agg) and r.adt == ctx.gen_adt) else h.g
+                    for fl in FLAG_FIELDS:
+                        new, old = g.fields[names.index(fl)], h.special[fl]
+                        if new is old:
+                            continue
+                        if any(new is b for b in bools):
+                            continue
+                        argvals = [b.value for b in bools if b.value is not None]
+                        if isinstance(new, bool) and bools and all(b.value is not None for b in bools) and len(bools) == 1 and new == bools[0].value:
+                            continue
+                        out.append((k, fl, repr(new)))
+            except Unanalysable as e:
+                out.append((k, "unanalysable", str(e)[:160]))
+        return out, n
+    return env.memo("builder_flags", compute)
+
+
+def builder_flags_premise(env, res, flags):
+    found, n = builder_flag_findings(env)
+    res.count("premise.builders", n)
+    for k, fl, what in found:
+        if fl == "unanalysable":
+            res.add("premise", "builder/%s/unanalysable" % k.split("::")[-1], "configuration method %s cannot be interpreted: %s" % (k, what), env.loc(k))
+        elif fl in flags:
+            res.add("premise", "builder/%s/%s" % (k.split("::")[-1], fl), "%s sets Generator.%s to %s, which is neither its previous value nor the method's own "
+                    "boolean argument: the mode is switched by something the user did not ask for" % (k, fl, what), env.loc(k))
 
 
 def proto_invariant_premise(env, res, pid):
